@@ -82,7 +82,7 @@ Definition item (start : bool) (s : bytes) : istep :=
       match s' with
       | b1 :: b2 :: s3 =>
           if b_is b1 187 && b_is b2 191 then ISkip s3 3 else bump_item 3 (unq_item s)
-      | _ => IEof (length s) 3
+      | _ => IEof (length s) (S (length s))
       end
     else unq_item s
   end.
